@@ -30,7 +30,8 @@ func verifEvent(ev string, args ...interface{}) {
 
 // Step counters (C19). Indices: 0 collectInto selections, 1 merged selection
 // plans, 2 findConflict, 3 fields-vs-fragment comparisons, 4 fragment-vs-fragment
-// comparisons, 5 fragment spread collection steps, 6 variable usage walks.
+// comparisons, 5 fragment spread collection steps, 6 variable usage walks,
+// 7 selection sets walked by the plan-cache fingerprint.
 var verifCounters [8]atomic.Int64
 
 func verifCount(k int) { verifCounters[k].Add(1) }
